@@ -30,6 +30,26 @@ def openAnon (out box pk : Bytes) (dh : Option Bytes) : OpenRes :=
   if box.length < 48 then .fail
   else boxOpen out (box.drop 32) (sealNonce (box.take 32) pk) dh
 
+/-- `box.GenerateKey(rand)`: reads 32 bytes (`io.ReadFull`; a shorter stream is an error), public key =
+    X25519(priv, 9) (oracle value) -/
+def boxGenerateKey (randBytes pubOracle : Bytes) : Option (Bytes × Bytes) :=
+  if randBytes.length < 32 then none else some (pubOracle, randBytes.take 32)
+
+/-- `SealAnonymous` reads the ephemeral key from `rand` first: a short stream is an error -/
+def sealAnonRand (out msg recipient randBytes epk : Bytes) (dh : Option Bytes) : Option (Option Bytes) :=
+  if randBytes.length < 32 then none else some (sealAnon out msg recipient epk dh)
+
+/-- `sign.GenerateKey(rand)` = `ed25519.GenerateKey`: 32 seed bytes; private key = seed ‖ public key (oracle) -/
+def signGenerateKey (randBytes pubOracle : Bytes) : Option (Bytes × Bytes) :=
+  if randBytes.length < 32 then none else some (pubOracle, randBytes.take 32 ++ pubOracle)
+
+/-- exported constants -/
+def boxOverhead : Nat := 16
+def anonymousOverhead : Nat := 48
+def signOverhead : Nat := 64
+def authSize : Nat := 32
+def authKeySize : Nat := 32
+
 /-! ## sign.go -/
 
 /-- `sign.Sign(out, message, privateKey)` with `sig` = ed25519.Sign(privateKey, message) (64 bytes) -/
